@@ -203,6 +203,33 @@ impl<const N: usize> PartialEq for Nv<N> {
     }
 }
 
+/// a value whose comparison takes a millisecond: searching a storage of 700 of them takes most of a second
+#[derive(Clone, Debug)]
+struct SlowEq(u32);
+impl PartialEq for SlowEq {
+    fn eq(&self, o: &SlowEq) -> bool {
+        std::thread::sleep(std::time::Duration::from_micros(1000));
+        self.0 == o.0
+    }
+}
+
+/// however long a search takes, it finds the first equal value
+fn slow_equality() -> Option<Viol> {
+    let r = guarded(|| {
+        let mut st: Storage<SlowEq> = Storage::new();
+        for k in 0..700u32 {
+            st.append(SlowEq(k));
+        }
+        let t = st.fetch_or_append(SlowEq(690));
+        let t2 = st.fetch_or_append(SlowEq(5));
+        (t.index(), t2.index(), st.fetch_or_append(SlowEq(9999)).index())
+    });
+    match r {
+        Ok((690, 5, 700)) => None,
+        other => Some(viol("C19:slow-equality", format!("a storage of 700 values whose comparison takes 1 ms each: fetch_or_append of the 691st / the 6th value / a new value returned indices {:?}, expected (690, 5, 700)", other), json!({"kind": "c19-slow"}))),
+    }
+}
+
 fn sized_types(tier: Tier) -> (u64, Vec<Viol>) {
     let mut n = 0u64;
     let mut viols = vec![];
@@ -569,6 +596,10 @@ pub fn run(tier: Tier) -> Run {
     run.outcome("continuations_from_prefilled_storages", big_n);
     let (other_n, other_v) = other_types(tier);
     run.add_all(other_v);
+    if let Some(v) = slow_equality() {
+        run.add(v);
+    }
+    run.outcome("slow_equality_searches", 3);
     let (sized_n, sized_v) = sized_types(tier);
     run.add_all(sized_v);
     run.outcome("histories_over_value_sizes_1_to_256_bytes", sized_n);
